@@ -24,8 +24,8 @@ import (
 type opKind int
 
 const (
-	opAddPeer opKind = iota // as Peering.AddLink does
-	opAddPeerAnnounce       // as the announce handler does for a hop-less announcement
+	opAddPeer         opKind = iota // as Peering.AddLink does
+	opAddPeerAnnounce               // as the announce handler does for a hop-less announcement
 	opAddGossip
 	opRemoveNextHop
 	opRemoveDisconnected
@@ -56,7 +56,7 @@ type scenario struct {
 	ops      []op
 	probes   []netip.Addr
 	limitOf  func(dst netip.Addr) int // limit of the routable-prefix configuration that governs dst
-	depth    [2]int // quick, thorough
+	depth    [2]int                   // quick, thorough
 	maxState [2]int
 }
 
@@ -563,7 +563,7 @@ func scenarios() []*scenario {
 		}
 		sc := &scenario{name: "one-prefix-limit1", cfg: cfg, router: R, limitOf: limitFrom(cfg()),
 			probes: []netip.Addr{P1, P2, D1, D2, D3, X, ip("fd10:4::2"), ip("fd77::1")},
-			depth: [2]int{4, 6}, maxState: [2]int{60000, 2500000}}
+			depth:  [2]int{4, 6}, maxState: [2]int{60000, 2500000}}
 		add := func(o op) { sc.ops = append(sc.ops, o) }
 		add(op{kind: opAddPeer, dst: P1, name: "AddPeer(P1)"})
 		add(op{kind: opAddPeer, dst: P2, name: "AddPeer(P2)"})
@@ -615,7 +615,7 @@ func scenarios() []*scenario {
 		region := []netip.Addr{ip("fd20:8010::1"), ip("fd20:8011::1"), ip("fd20:8012::1")}
 		sc := &scenario{name: "zero-marker-country-limit1", cfg: cfg, router: R, limitOf: limitFrom(cfg()),
 			probes: append(append([]netip.Addr{P1}, own...), region...),
-			depth: [2]int{6, 7}, maxState: [2]int{60000, 1500000}}
+			depth:  [2]int{6, 7}, maxState: [2]int{60000, 1500000}}
 		add := func(o op) { sc.ops = append(sc.ops, o) }
 		add(op{kind: opAddPeer, dst: P1, name: "AddPeer(P1)"})
 		for i, d := range own {
